@@ -61,7 +61,15 @@ func genPlan(t *rapid.T, tier string) any {
 	n := rapid.IntRange(1, max).Draw(t, "nsteps")
 	for i := 0; i < n; i++ {
 		s := Step{ID: rapid.IntRange(0, nIDs-1).Draw(t, "id")}
-		switch k := rapid.IntRange(0, 12).Draw(t, "kind"); {
+		switch k := rapid.IntRange(0, 14).Draw(t, "kind"); {
+		case k == 13:
+			// the content comes from a file of the caller's (an *os.File source), on the same file system
+			s.Kind = "putfile"
+			s.Content = rapid.IntRange(0, nc-1).Draw(t, "content")
+		case k == 14:
+			// the caller reuses its source files: rewritten in place with other bytes of the same length, or emptied
+			s.Kind = "scribble"
+			s.Arg = rapid.IntRange(0, 1).Draw(t, "scribblehow")
 		case k == 12:
 			// the wall clock steps (forwards, or backwards as after an NTP correction or a restored VM)
 			s.Kind = "clock"
@@ -188,7 +196,13 @@ func run(t *testing.T, plan any, keep bool) *simcheck.Outcome {
 		where     string
 	}
 	var held []heldBytes
-	clockBack := 0
+	clockBack, scribbles := 0, 0
+	var sources []string // the caller's own files that were handed to Put
+	defer func() {
+		for _, src := range sources {
+			os.Remove(src)
+		}
+	}()
 
 	rep := simrt.Run(t, simrt.Options{Sched: simrt.Sched{Policy: "random", Seed: 1}, Strict: true, MaxSteps: 200000, KeepTrace: keep}, func(s *simrt.Sim) {
 		c, err := cache.Open(dir)
@@ -216,12 +230,39 @@ func run(t *testing.T, plan any, keep bool) *simcheck.Outcome {
 				if st.Secs < 0 {
 					clockBack++
 				}
-			case "put", "putreader":
+			case "scribble":
+				for _, src := range sources {
+					if st.Arg == 0 {
+						if old, err := os.ReadFile(src); err == nil {
+							os.WriteFile(src, cachekit.Content(3000+si, len(old)), 0o666)
+						}
+					} else {
+						os.Truncate(src, 0)
+					}
+					scribbles++
+				}
+			case "put", "putreader", "putfile":
 				data := contents[st.Content]
 				wasDamaged := dataDamaged[outIDs[st.Content]]
 				var err error
 				if st.Kind == "put" {
 					err = c.PutBytes(id, data)
+				} else if st.Kind == "putfile" {
+					src := filepath.Join(dir, "..", fmt.Sprintf("c05-src-%d-%d", si, st.Content))
+					os.WriteFile(src, data, 0o666)
+					sources = append(sources, src)
+					f, oerr := simos.Open(src)
+					if oerr != nil {
+						out.Inconclusive = "open source: " + oerr.Error()
+						return
+					}
+					var o cache.OutputID
+					var n int64
+					o, n, err = c.Put(id, f)
+					f.Close()
+					if err == nil && (o != outIDs[st.Content] || n != int64(len(data))) {
+						out.Violate("put-wrong-result", "%s: Put returned output %x size %d, want %x size %d", where, o[:4], n, outIDs[st.Content][:4], len(data))
+					}
 				} else {
 					var o cache.OutputID
 					var n int64
@@ -404,6 +445,7 @@ func run(t *testing.T, plan any, keep bool) *simcheck.Outcome {
 	out.Count("lookups_after_damage", int64(lookupAfterDamage))
 	out.Count("repairs_by_put", int64(repairs))
 	out.Count("fault_clock_stepped_back", int64(clockBack))
+	out.Count("source_files_rewritten_after_put", int64(scribbles))
 	for _, st := range p.Steps {
 		if st.Kind == "damage" {
 			out.Count("damage_"+st.Target+"_"+st.How, 1)
@@ -416,7 +458,7 @@ var harness = &simcheck.Harness{
 	Property: "C05",
 	Level:    "exploration",
 	Rule: "rapid draws a history of up to 14 (quick) / 25 (thorough) steps over 3 action ids and up to 4 contents of sizes {0,1,2,100,5000,40000}: " +
-		"Put (PutBytes or a chunking ReadSeeker), Get, GetBytes, GetFile, OutputFile, steps of the wall clock (1s .. 400d forwards, 1s .. 6d backwards), and damage steps applied with the raw OS between operations " +
+		"Put (PutBytes, a chunking ReadSeeker, or a file of the caller's that it later rewrites in place or empties), Get, GetBytes, GetFile, OutputFile, steps of the wall clock (1s .. 400d forwards, 1s .. 6d backwards), and damage steps applied with the raw OS between operations " +
 		"(truncate/extend/flip/delete/replace of index or data files, data files replaced by symbolic links, 23 kinds of nearly valid index entries); every byte slice returned by GetBytes is re-compared with a private copy before each later step; non-trivial = at least one lookup after a damage step; " +
 		"distinct by the hash of the intercepted file-operation sequence",
 	Gen:     genPlan,
